@@ -147,6 +147,9 @@ def _work(args):
                         and oracle_verify(ctx["pub"], crypto.gpg_digest(twin_canon(new["signed"]), bytes.fromhex(ent["other_headers"])), ent["signature"])
                     if not okc:
                         out["c11"].append({"case": case, "problem": "gpg path output is not the canonical, correctly signed envelope", "gpg": True})
+                    old_sigs = ctx["doc"].get("signatures", {}) if isinstance(ctx["doc"], dict) else {}
+                    if any(k not in new["signatures"] or twin_canon(new["signatures"][k]) != twin_canon(v) for k, v in old_sigs.items() if k != ctx["pub"]):
+                        out["c11"].append({"case": case, "problem": "adding a signature through the gpg path altered or dropped signatures already present", "gpg": True})
                 except Exception as e:  # noqa: BLE001
                     out["c11"].append({"case": case, "problem": f"gpg path output unreadable: {e}", "gpg": True})
         else:
